@@ -31,6 +31,8 @@ func VerifC20_v2_priority() {
 	}
 	d, err := New(Opts[int]{Divider: dv, HandlersQuantity: H, Inputs: inputs})
 	vAssume(err == nil)
+	// the options are the caller's: once New has returned it may reuse the map it passed (clear it, fill it for the next discipline)
+	vTouchW(inputs)
 	// goroutines of the user, all started after New returned
 	nh := int(H)
 	hn := []string{"handler0", "handler1", "handler2", "handler3"}
